@@ -187,17 +187,18 @@ PROPS = {
         "lean_modules": ["HaqqModel.Props.C02"],
         "level": "proof",
         "trusted_base": COMMON_TRUST + [
-            "modelled, not verified: the bank keeper's mint/burn in EVMKeeper.SetBalance (as supply ± difference), SendCoins between an account and an outside pool (supply-neutral), the auth account store; that the account a precompile moves coins of is its calling contract (hence cached) is an assumption of evm_tx_conserves taken from precompiles/*/tx.go (isCallerDelegator / isContractDelegator / isCallerSender guards)",
+            "modelled, not verified: the bank keeper's mint/burn in EVMKeeper.SetBalance (as supply ± difference), SendCoins between an account and an outside pool (supply-neutral), the auth account store; the Cosmos message a precompile runs is modelled as an arbitrary list of supply-neutral credits and debits of arbitrary accounts",
+            "the go-ethereum interpreter (that value transfers are SubBalance + AddBalance of equal amounts after CanTransfer) is exercised by the transaction-level run, not proved",
         ],
         "assumptions": [
             "an address without an auth account holds no coins of the EVM denomination",
-            "SELFDESTRUCT is outside evm_tx_conserves (it burns explicitly when the beneficiary is the contract itself); the differential run covers it with a beneficiary",
-            "evm_tx_conserves covers mirrored precompile movements; the unmirrored movement of a cached, dirty account (delegation of the origin's coins by grant after the origin paid value) violates the property in the code (known finding F-C02-a, Lean counterexample unmirrored_counterexample)",
+            "SELFDESTRUCT is outside evm_tx_conserves (it burns explicitly when the beneficiary is the contract itself, and coins sent to a destructed account die with it); the differential run covers it with a beneficiary",
+            "a frame that calls a stateful precompile and then reverts is outside the theorem: the journal does not cover the Cosmos context (known finding of C05, with its consequence for balances listed under C02)",
         ],
-        "level_text": "Machine-checked proofs (Lean 4) over the StateDB/keeper model: Commit changes the supply by exactly the sum of the balance changes it writes; after Commit every bank balance equals the EVM's view; for every sequence of value transfers, storage and nonce writes, precompile entries (Commit) and mirrored precompile bank movements the final Commit leaves the total supply unchanged and the bank equal to the EVM's view; a kernel-checked counterexample shows the unmirrored case mints. Tied to the real StateDB, EVM keeper and bank keeper by an exact differential run; real signed transactions are judged against supply conservation and per-account balance equations.",
-        "level_note": "Trusted: Lean kernel; correspondence harness; bank mint/burn/send semantics modelled; which account a precompile moves coins of is taken from the source, not proved.",
-        "technique": "Lean 4 invariant proof (coherence of cache and bank, conserved quantity supply + EVM view − bank) by induction over op sequences + differential correspondence + transaction-level monitors",
-        "explanation": "Exact mint/burn accounting of Commit and the conservation invariant proved for all histories; the real StateDB/bank are driven with transfers, round trips across flushes, mirrored and unmirrored bank movements and compared state-for-state (including total supply) with the compiled Lean driver; supply and balance equations evaluated on real transactions that pay value and call the staking precompile from nested frames.",
+        "level_text": "Machine-checked proofs (Lean 4) over the StateDB/keeper model: Commit changes the supply by exactly the sum of the balance changes it writes; after Commit every bank balance equals the EVM's view; after SyncBalances the EVM sees the bank's balance of every account; for every sequence of value transfers, storage and nonce writes, precompile queries (Commit) and stateful precompile calls (Commit, a Cosmos message moving coins of arbitrary accounts, SyncBalances) the final Commit leaves the total supply unchanged and the bank equal to the EVM's view; kernel-checked over regenerated facts: every coin-moving precompile method has that shape; kernel-checked counterexample for the unsynchronised case (the defects repaired by e6ca689). Tied to the real StateDB, EVM keeper and bank keeper by an exact differential run; real signed transactions are judged against supply conservation and per-account balance equations.",
+        "level_note": "Trusted: Lean kernel; extractor; correspondence harness; bank mint/burn/send semantics modelled; reverted frames containing precompile calls excluded (C05 finding).",
+        "technique": "Lean 4 invariant proof (coherence of cache and bank, conserved quantity supply + EVM view − bank) by induction over op sequences + regenerated precompile-shape facts + differential correspondence + transaction-level monitors",
+        "explanation": "Exact mint/burn accounting of Commit, the SyncBalances specification and the conservation invariant proved for all histories; the real StateDB/bank are driven with transfers, round trips across flushes, bank movements of arbitrary accounts followed by SyncBalances and compared state-for-state (including total supply) with the compiled Lean driver; supply and balance equations evaluated on real transactions that pay value and call the staking precompile from nested frames.",
     },
     "C01": {
         "id": "C01",
